@@ -411,91 +411,115 @@ def rule_FR2(ctx, rep):
 
 
 # ------------------------------------------------------------------------------------------ FR3
+def _parse_expr(a):
+    try:
+        return ast.parse(a, mode='eval').body
+    except SyntaxError:
+        return None
+
+
 def rule_FR3(ctx, rep):
     """rendezvous typestate of MessageExchanger.buffers."""
     model = ctx.model
     rcv = model.func(EX + '.receive')
     dr = model.func(EX + '.data_received')
     lab = rcv.params[1]
-    pops = [c for c in iter_nodes(rcv.node) if isinstance(c, ast.Call) and isinstance(c.func, ast.Attribute)
-            and isinstance(c.func.value, ast.Attribute) and c.func.value.attr == 'buffers']
+    from . import cond, sem
     pm = parents(rcv.node)
-    removing = [c for c in pops if c.func.attr == 'pop']
-    if not removing:
-        rep.bad('FR3', rcv, pops[0] if pops else rcv.qualname, 'receive does not remove (pop) an already-arrived payload from buffers: it would be '
+
+    def is_buffers(e):
+        e = sem.expand(rcv, e, e, pm) if not isinstance(e, ast.Attribute) else e
+        return isinstance(e, ast.Attribute) and e.attr == 'buffers'
+
+    def resolved(e, use):
+        """the expression a name stands for (through single plain definitions), as a node of the tree"""
+        return sem.resolve(rcv, e, use, pm)
+    pops = [c for c in iter_nodes(rcv.node) if isinstance(c, ast.Call) and isinstance(c.func, ast.Attribute) and c.func.attr == 'pop' and is_buffers(c.func.value)]
+    if not pops:
+        rep.bad('FR3', rcv, rcv.qualname, 'receive does not remove (pop) an already-arrived payload from buffers: it would be '
                 'delivered again / stay behind after shutdown', rcv.node)
         return
-    p = removing[0]
-    if len(p.args) < 2:
-        rep.bad('FR3', rcv, p, 'pop without default: a receive before arrival raises KeyError')
-        return
-    default = p.args[1]
-    if norm(p.args[0]) != lab:
-        rep.bad('FR3', rcv, p, f'buffers are popped with key {norm(p.args[0])}, not with the requested label {lab}')
-    rep.ok('FR3', rcv, p, 'arrived payload is removed when it is handed out')
-    st = astq.enclosing_stmt(p, pm)
-    if not (isinstance(st, ast.Assign) and isinstance(st.targets[0], ast.Name)):
-        raise AnalysisError('FR3: result of buffers.pop is not bound to a name')
-    v = st.targets[0].id
-    tests = [i for i in iter_nodes(rcv.node) if isinstance(i, ast.If) and mentions_name(i.test, v)]
-    if not tests:
-        raise AnalysisError('FR3: absence test on the popped value not found')
-    t = tests[0].test
-    ident = isinstance(t, ast.Compare) and len(t.ops) == 1 and isinstance(t.ops[0], (ast.Is, ast.IsNot)) and \
-        sorted([norm(t.left), norm(t.comparators[0])]) == sorted([v, norm(default)])
-    absent_branch, present_branch = (tests[0].body, tests[0].orelse) if (ident and isinstance(t.ops[0], ast.Is)) else (tests[0].orelse, tests[0].body)
-    if ident:
-        rep.ok('FR3', rcv, t, 'absence is tested by identity against the pop default (empty payloads are payloads)')
-    else:
-        rep.bad('FR3', rcv, t, f'absence of a payload is tested with `{norm(t)}` instead of identity with the pop default '
-                f'{norm(default)}: an empty payload that already arrived is taken for "not yet arrived" and the receive never completes')
-        absent_branch, present_branch = tests[0].body, tests[0].orelse
-    # in the absent branch a fresh Future is stored under the label; that same object is what receive returns
-    stores = [s for s in absent_branch for s in [s] if isinstance(s, ast.Assign) and any(isinstance(x, ast.Subscript) and isinstance(x.value, ast.Attribute)
-              and x.value.attr == 'buffers' for x in s.targets)]
-    fut_names = set()
-    okstore = False
-    if len(stores) == 1:
-        s0 = stores[0]
-        key = [x for x in s0.targets if isinstance(x, ast.Subscript)][0]
-        val = s0.value
-        if isinstance(val, ast.Call) and attr_tail(val.func) == 'Future':
-            okstore = norm(key.slice) == lab
-            fut_names |= {x.id for x in s0.targets if isinstance(x, ast.Name)}
-        elif isinstance(val, ast.Name):
-            d = [a for a in absent_branch if isinstance(a, ast.Assign) and any(isinstance(x, ast.Name) and x.id == val.id for x in a.targets)
-                 and isinstance(a.value, ast.Call) and attr_tail(a.value.func) == 'Future' and astq.position(a) < astq.position(s0)]
-            okstore = bool(d) and norm(key.slice) == lab
-            fut_names.add(val.id)
-    other_stores = [s for s in iter_nodes(rcv.node) if isinstance(s, ast.Assign) and any(isinstance(x, ast.Subscript) and isinstance(x.value, ast.Attribute)
-                    and x.value.attr == 'buffers' for x in s.targets) and s not in stores]
-    if okstore and not other_stores:
-        rep.ok('FR3', rcv, stores[0], 'a Future is registered under the label only when nothing has arrived')
-    else:
-        rep.bad('FR3', rcv, tests[0], 'the waiting Future is not registered (exactly) in the "not yet arrived" branch under the requested label')
-    # returns: absent path returns the registered Future, present path returns the popped payload
+    for p in pops:
+        if norm(p.args[0]) != lab:
+            rep.bad('FR3', rcv, p, f'buffers are popped with key {norm(p.args[0])}, not with the requested label {lab}')
+    # every return is classified by its path condition: "arrived" (label in buffers / popped value is not the pop default) or
+    # "not yet arrived"; what is returned there must be the popped payload resp. a fresh Future stored under the label
+    def arrival(f):
+        """True / False / None: does the condition f establish that a payload has arrived"""
+        imp, ref = cond.implied(f), cond.refuted(f)
+
+        def kind(a):
+            e = _parse_expr(a)
+            if isinstance(e, ast.Compare) and len(e.ops) == 1:
+                l, r = e.left, e.comparators[0]
+                if isinstance(e.ops[0], ast.In) and norm(l) == lab and isinstance(r, ast.Attribute) and r.attr == 'buffers':
+                    return 'member'
+                if isinstance(e.ops[0], ast.Is):
+                    for x, y in ((l, r), (r, l)):
+                        if isinstance(x, ast.Call) and isinstance(x.func, ast.Attribute) and x.func.attr == 'pop' and len(x.args) == 2 and norm(x.args[1]) == norm(y):
+                            return 'default'          # popped value is the pop default: nothing had arrived
+            return None
+        for a in imp:
+            if kind(a) == 'member':
+                return True
+            if kind(a) == 'default':
+                return False
+        for a in ref:
+            if kind(a) == 'member':
+                return False
+            if kind(a) == 'default':
+                return True
+        return None
     rets = [r for r in iter_nodes(rcv.node) if isinstance(r, ast.Return)]
-    badret = None
+    stores = [s_ for s_ in iter_nodes(rcv.node) if isinstance(s_, ast.Assign) and any(isinstance(x, ast.Subscript) and is_buffers(x.value) for x in s_.targets)]
+    seen = {True: None, False: None}
+    problem = None
     for r in rets:
         if r.value is None:
-            badret = r
+            problem = (r, 'receive returns nothing on some path')
             continue
-        rv = norm(r.value)
-        in_absent = any(astq._contains(a, r) for a in absent_branch)
-        in_present = any(astq._contains(a, r) for a in present_branch)
-        if in_absent and rv not in fut_names:
-            badret = r
-        elif in_present and rv != v:
-            badret = r
-        elif not in_absent and not in_present and rv not in fut_names | {v}:
-            badret = r
-        elif not in_absent and not in_present and rv == v and v not in fut_names and stores:
-            # common return after the if: the popped name must have been re-bound to the Future in the absent branch
-            badret = r
-    if rets and badret is None:
-        rep.ok('FR3', rcv, rets[-1], 'receive returns the popped payload, or the Future it registered')
+        for g, v in cond.expr_cases(rcv, r.value, r, pm):
+            f = cond.conj([cond.context(rcv, r, pm), g])
+            if not cond.satisfiable(f):
+                continue
+            arr = arrival(f)
+            if arr is None:
+                problem = (r, f'whether a payload has arrived is not decided by `{lab} in buffers` or by identity of the popped value with the pop default '
+                              f'on the path with {cond.fmt(f)}: an empty payload that already arrived is taken for "not yet arrived" and the receive never completes')
+                continue
+            if arr:
+                ok_ = isinstance(v, ast.Call) and isinstance(v.func, ast.Attribute) and v.func.attr == 'pop' and norm(v.args[0]) == lab
+                if not ok_:
+                    problem = (r, 'an arrived payload is not removed from buffers and returned')
+                else:
+                    seen[True] = r
+            else:
+                fut = isinstance(v, ast.Call) and attr_tail(v.func) == 'Future'
+                # the same Future object is stored under the label on this path
+                st_ok = False
+                for s_ in stores:
+                    if cond.satisfiable(cond.conj([cond.context(rcv, s_, pm), f])) and all(norm(x.slice) == lab for x in s_.targets if isinstance(x, ast.Subscript)):
+                        sv = resolved(s_.value, s_)
+                        rv = resolved(r.value, r) if isinstance(r.value, ast.Name) else r.value
+                        rdefs = [d[0] for d in astq.reaching_definitions(rcv.node, r.value.id, r, pm)] if isinstance(r.value, ast.Name) else []
+                        if isinstance(sv, ast.Call) and attr_tail(sv.func) == 'Future' and (sv is rv or s_ in rdefs):
+                            st_ok = True
+                if fut and st_ok:
+                    seen[False] = r
+                else:
+                    problem = (r, 'the waiting Future is not registered (exactly) in the "not yet arrived" case under the requested label and returned')
+    for s_ in stores:
+        arr = arrival(cond.context(rcv, s_, pm))
+        if arr is not False:
+            problem = (s_, 'buffers are written on a path on which a payload may already have arrived (it would be overwritten)')
+    if problem is None and seen[True] is not None and seen[False] is not None:
+        rep.ok('FR3', rcv, pops[0], 'arrived payload is removed when it is handed out')
+        rep.ok('FR3', rcv, seen[False], 'a Future is registered under the label only when nothing has arrived; arrival is decided by membership / identity with the pop default')
+        rep.ok('FR3', rcv, seen[True], 'receive returns the popped payload, or the Future it registered')
+    elif problem is not None:
+        rep.bad('FR3', rcv, problem[0], problem[1])
     else:
-        rep.bad('FR3', rcv, badret if badret is not None else rcv.qualname, 'receive does not return the popped payload / the registered Future on every path', rcv.node)
+        rep.bad('FR3', rcv, rcv.qualname, 'receive does not return the popped payload / the registered Future on every path', rcv.node)
     # data_received: present -> pop + set_result(payload); absent -> store payload
     f = _frame_facts(ctx)
     pmd = parents(dr.node)
@@ -505,9 +529,11 @@ def rule_FR3(ctx, rep):
     pv = stt.targets[0].id
     sth = astq.enclosing_stmt(f['hdr'], pmd)
     lv = sth.targets[0].elts[0].id
+    def is_buf(e):
+        e = sem.expand(dr, e, e, pmd)
+        return isinstance(e, ast.Attribute) and e.attr == 'buffers'
     ifs = [i for i in iter_nodes(dr.node) if isinstance(i, ast.If) and isinstance(i.test, ast.Compare) and len(i.test.ops) == 1
-           and isinstance(i.test.ops[0], (ast.In, ast.NotIn)) and isinstance(i.test.comparators[0], ast.Attribute)
-           and i.test.comparators[0].attr == 'buffers']
+           and isinstance(i.test.ops[0], (ast.In, ast.NotIn)) and is_buf(i.test.comparators[0])]
     if len(ifs) != 1:
         raise AnalysisError('FR3: presence test `label in self.buffers` not found in data_received')
     i = ifs[0]
@@ -522,8 +548,8 @@ def rule_FR3(ctx, rep):
         rep.ok('FR3', dr, sr[0], 'a waiting Future is removed and completed with the payload')
     else:
         rep.bad('FR3', dr, i, 'when a receive is waiting, its Future is not (removed from buffers and) completed with the payload of this frame')
-    store = [s for s in absent if isinstance(s, ast.Assign) and any(isinstance(x, ast.Subscript) and isinstance(x.value, ast.Attribute)
-             and x.value.attr == 'buffers' and norm(x.slice) == lv for x in s.targets) and norm(s.value) == pv]
+    store = [s for s in absent if isinstance(s, ast.Assign) and any(isinstance(x, ast.Subscript) and is_buf(x.value) and norm(x.slice) == lv for x in s.targets)
+             and norm(s.value) == pv]
     if len(store) == 1 and len(absent) == 1:
         rep.ok('FR3', dr, store[0], 'payload stored under its label when no receive is waiting')
     else:
@@ -649,7 +675,7 @@ def rule_HS1(ctx, rep):
         raise AnalysisError('HS1: the list of keys returned by _prss_keys_to_peer was not found')
     ew = None
     for e in elts:
-        ew = keyenum.enumeration(wr, e, {pw: 'PEER'})
+        ew = keyenum.enumeration(wr, e, {pw: 'PEER'}, model=model)
         if ew is None:
             rep.bad('HS1', wr, e, 'a key is sent outside any enumeration of key subsets')
             continue
@@ -672,7 +698,7 @@ def rule_HS1(ctx, rep):
            and isinstance(n.value, ast.Name) and n.value.id in rd.params]
     if len(sls) != 1:
         raise AnalysisError('HS1: the slice cutting a key out of the received data was not found in _prss_keys_from_peer')
-    er = keyenum.enumeration(rd, sls[0], {pr: 'PEER'})
+    er = keyenum.enumeration(rd, sls[0], {pr: 'PEER'}, model=model)
     if er is None:
         rep.bad('HS1', rd, sls[0], 'received keys are not cut inside an enumeration of key subsets')
         return
@@ -717,11 +743,20 @@ def rule_HS1(ctx, rep):
                 inc_nodes.append(s_ if v is not None and v == Lin.sym(offv) + K else None)
         if len(inc_nodes) == 1 and inc_nodes[0] is not None:
             # the increment is governed by the subset filter only (not by `data is not None`)
-            ei = keyenum.enumeration(rd, inc_nodes[0], {pr: 'PEER'})
+            ei = keyenum.enumeration(rd, inc_nodes[0], {pr: 'PEER'}, model=model)
             b2, g2 = routes._context(rd, inc_nodes[0], pmr)
             extra = [t for t, tv in g2 if not any(isinstance(x, ast.Name) and x.id == er.var for x in ast.walk(t))]
             if ei is not None and ei.filters == er.filters and not extra:
                 good = True
+    # positional form: the k-th expected subset (k = its position in the list of expected subsets) gets data[K*k : K*(k+1)]
+    positional = None
+    eb = er.binder
+    if not good and eb.kind == 'enum' and eb.start == 0 and lo is not None and hi is not None and lo == Lin.sym(eb.pos) * K and hi == lo + K \
+            and isinstance(eb.src, ast.Name):
+        b2, g2 = routes._context(rd, sls[0], pmr)
+        if not [t for t, tv in g2 if any(isinstance(x, ast.Name) and x.id in (eb.pos, eb.elem) for x in ast.walk(t))]:
+            positional = eb.src.id
+            good = True
     if good:
         rep.ok('HS1', rd, sls[0], f'reader cuts {K}-byte keys (= token_bytes({K})) at consecutive offsets, counted for every expected subset')
     else:
@@ -729,7 +764,11 @@ def rule_HS1(ctx, rep):
     # offset starts at 0 and the total is returned
     init = [s_ for s_ in rd.node.body if isinstance(s_, ast.Assign) and offv and norm(s_.targets[0]) == offv]
     rets = [r for r in iter_nodes(rd.node) if isinstance(r, ast.Return)]
-    if init and const_int(init[0].value) == 0 and rets and all(r.value is not None and norm(r.value) == offv for r in rets):
+    tot = to_lin(ast.parse(f'{K} * len({positional})', mode='eval').body, opaque=True) if positional else None
+    if positional and rets and all(r.value is not None and to_lin(r.value, opaque=True) == tot for r in rets) \
+            and all(astq.reaching_definitions(rd.node, positional, r, pmr) == astq.reaching_definitions(rd.node, positional, eb.node, pmr) for r in rets):
+        rep.ok('HS1', rd, rets[0], f'the total returned is {K} bytes per expected subset (the same list that is stored from), whether or not data is given')
+    elif init and const_int(init[0].value) == 0 and rets and all(r.value is not None and norm(r.value) == offv for r in rets):
         rep.ok('HS1', rd, rets[0], 'size-only call and storing call walk the same enumeration (one function), total length returned')
     else:
         rep.bad('HS1', rd, rd.qualname, 'the reader does not start at offset 0 / does not return the total key length', rd.node)
@@ -774,7 +813,7 @@ def rule_HS1(ctx, rep):
 
     def prss_ctx(fn, node, pmx):
         """path condition of node, restricted to the PRSS option"""
-        return cond.project(cond.context(fn, node, pmx), lambda a: 'no_prss' in a)
+        return cond.project(cond.context(fn, node, pmx), lambda a: a.endswith('.no_prss'))        # the option itself, not a test that mentions it
     if len(wcall) == 1 and len(rcalls) == 2:
         gwr = prss_ctx(cm, wcall[0], pmc)
         if 'no_prss' in cond.fmt(gwr) and all(cond.equivalent(prss_ctx(dr, c, pmd), gwr) for c in rcalls):
@@ -890,7 +929,7 @@ def rule_KEY1(ctx, rep):
                 if isinstance(n, ast.FunctionDef) and n.name == 'threshold' and n is not setter.node:
                     r = [x for x in iter_nodes(n) if isinstance(x, ast.Return)]
                     getter_ok = bool(r) and norm(r[0].value) == 'self._threshold'
-    en = keyenum.enumeration(setter, tok)
+    en = keyenum.enumeration(setter, tok, model=model)
     lp = en.binder.node if en is not None else tok
     if en is None:
         rep.bad('KEY1', setter, tok, 'the key stored for a subset is not a fresh secrets.token_bytes() draw per subset (the draw is outside the enumeration '
@@ -898,7 +937,10 @@ def rule_KEY1(ctx, rep):
         rep.bad('KEY1', setter, tok, 'keys are not generated over the enumeration of (m-t)-subsets used by the handshake')
     else:
         want = cnorm_text('itertools.combinations(range(M), M - ' + tparam + ')')
-        if en.base_txt == want and stores and getter_ok and astq.position(stores[0]) < astq.position(lp):
+        # (after `self._threshold = t`, `self.threshold` -- written T -- is that same t: the getter returns self._threshold)
+        want_T = cnorm_text('itertools.combinations(range(M), M - T)')
+        if en.base_txt in (want, want_T) and stores and getter_ok and astq.position(stores[0]) < astq.position(lp) \
+                and not any(isinstance(s_, ast.Assign) and norm(s_.targets[0]) == 'self._threshold' and s_ is not stores[0] for s_ in iter_nodes(setter.node)):
             rep.ok('KEY1', setter, lp, 'keys generated over the same subset enumeration as the handshake, for the threshold just stored')
         else:
             rep.bad('KEY1', setter, lp, f'key generation enumerates {en.base_txt} (expected {want} with the threshold just stored): parties disagree on which subsets have keys')
@@ -1121,6 +1163,8 @@ def rule_CR3(ctx, rep):
     st = r.slot[3] if len(r.slot) > 3 and r.slot[3] is not None else astq.enclosing_stmt(r.node, pm)
     aw = [s_ for s_ in iter_nodes(fn.node) if isinstance(s_, ast.Assign) and isinstance(s_.value, ast.Await) and isinstance(s_.value.value, ast.Call)
           and attr_tail(s_.value.value.func) == 'gather' and lv and any(norm(a) == lv for a in s_.value.value.args)]
+    if getattr(r, 'gathered', None) is not None:
+        aw = [r.gathered]             # the futures are awaited in the statement that posts the receives
     pst = astq.enclosing_stmt(foreign[0], pm)
     awname = aw[0].targets[0].id if aw and isinstance(aw[0].targets[0], ast.Name) else ''
     def reads_awaited(t):
@@ -1133,7 +1177,7 @@ def rule_CR3(ctx, rep):
                 if src is not None and mentions_name(t, nm) and mentions_name(src, awname):
                     return True
         return False
-    if aw and astq.position(st) < astq.position(aw[0]) < astq.position(pst) and any(reads_awaited(t) for t in foreign):
+    if aw and (st is aw[0] or astq.position(st) < astq.position(aw[0])) and astq.position(aw[0]) < astq.position(pst) and any(reads_awaited(t) for t in foreign):
         rep.ok('CR3', fn, aw[0], 'all requested shares are awaited before recombination')
     else:
         rep.bad('CR3', fn, rec[0], 'recombination is not preceded by an await of all requested shares')
